@@ -239,6 +239,43 @@ StepAsm(P, orc, m, op) ==
                              op.r, <<OracleVal(orc, m.ocur)>>))
     [] OTHER -> Fault(m, "Unsupported:" \o t)
 
+(* ---- memref values: interned descriptors ---- *)
+DynMark == -777777
+IsInterned(m, v) == v > UFBase /\ v - UFBase <= Len(m.uf)
+KeyOf(m, v) == m.uf[v - UFBase][1]     \* InternAll wraps keys as <<key, resultIndex>>
+
+RECURSIVE Resolve(_, _, _, _, _)
+Resolve(stat, dyn, mark, k, acc) ==   \* replace marks in stat by successive elements of dyn
+  IF Len(acc) = Len(stat) THEN acc
+  ELSE LET s == stat[Len(acc) + 1] IN
+       IF s = mark THEN Resolve(stat, dyn, mark, k + 1, Append(acc, dyn[k]))
+       ELSE Resolve(stat, dyn, mark, k, Append(acc, s))
+CountMarks(stat, mark) == Cardinality({i \in DOMAIN stat : stat[i] = mark})
+
+StepAlloc(P, m, op) ==
+  LET sizes == Resolve(op.iv, Vals(m, op.a), -1, 1, <<>>)
+      t == InternAll(m.uf, <<"alloc", <<op.sv[1]>>, sizes>>, 1, <<>>) IN
+  Adv(Def(P, [m EXCEPT !.uf = t[1]], op.r, t[2]))
+
+StepSubview(P, m, op) ==
+  LET rank == Len(op.iv) \div 3
+      so == SubSeq(op.iv, 1, rank)  ss == SubSeq(op.iv, rank + 1, 2 * rank)  st == SubSeq(op.iv, 2 * rank + 1, 3 * rank)
+      dyn == Vals(m, op.a)
+      no == CountMarks(so, DynMark)  ns == CountMarks(ss, DynMark)
+      offs == Resolve(so, SubSeq(dyn, 2, 1 + no), DynMark, 1, <<>>)
+      sizes == Resolve(ss, SubSeq(dyn, 2 + no, 1 + no + ns), DynMark, 1, <<>>)
+      strs == Resolve(st, SubSeq(dyn, 2 + no + ns, Len(dyn)), DynMark, 1, <<>>)
+      t == InternAll(m.uf, <<"subview", <<>>, <<dyn[1]>> \o offs \o sizes \o strs>>, 1, <<>>) IN
+  Adv(Def(P, [m EXCEPT !.uf = t[1]], op.r, t[2]))
+
+StepDim(P, m, op) ==
+  LET src == m.env[op.a[1]]  idx == m.env[op.a[2]] IN
+  IF IsInterned(m, src) /\ KeyOf(m, src)[1] = "alloc" /\ idx >= 0 /\ idx < Len(KeyOf(m, src)[3])
+  THEN Adv(Def(P, m, op.r, <<KeyOf(m, src)[3][idx + 1]>>))
+  ELSE IF IsInterned(m, src) /\ KeyOf(m, src)[1] = "subview" /\ idx >= 0 /\ idx < (Len(KeyOf(m, src)[3]) - 1) \div 3
+  THEN Adv(Def(P, m, op.r, <<KeyOf(m, src)[3][1 + ((Len(KeyOf(m, src)[3]) - 1) \div 3) + idx + 1]>>))
+  ELSE StepPure(P, m, op)
+
 MStepRaw(P, orc, m) ==
   LET i == m.pc  op == P.ops[i] IN
   IF i > Len(P.ops) THEN [m EXCEPT !.status = "done"]
@@ -261,6 +298,10 @@ MStepRaw(P, orc, m) ==
          [] op.k = "asm" -> StepAsm(P, orc, m, op)
          [] op.k \in {"call", "eff"} -> StepOpaque(P, orc, m, op)
          [] op.k = "pure" -> StepPure(P, m, op)
+         [] op.k = "alloc" -> StepAlloc(P, m, op)
+         [] op.k = "subview" -> StepSubview(P, m, op)
+         [] op.k = "dim" -> StepDim(P, m, op)
+         [] op.k \in {"copy", "dealloc", "barrier"} -> StepOpaque(P, orc, m, op)
          [] OTHER -> Fault(m, "Unsupported:" \o op.n)
 
 (* claims: what the compiler assumes a state-typed value guarantees (C07) *)
